@@ -34,7 +34,8 @@ structure TrAlt where
   ports : Bool := true
   /-- which client port pair (an abstract identifier; only equality matters) -/
   port : Nat := 0
-  /-- 0 = no interleaved ids, 1 = (ilA, ilA+1), 2 = (ilA, ilA+2) -/
+  /-- 0 = no interleaved ids, 1 = (ilA, ilA+1); not a pair of consecutive channels: 2 = (ilA, ilA+2),
+  3 = (ilA, ilA), 4 = (ilA+1, ilA) -/
   il : Nat := 0
   ilA : Nat := 0
   deriving Repr, Inhabited, DecidableEq
@@ -206,7 +207,7 @@ def setupChecks (ss : Session) (r : Request) (t : TrAlt) : Option Resp :=
   else if ss.state == .prePlay && r.path != ss.path then some badResp   -- ErrServerMediasDifferentPaths
   else if ss.transport.isSome && ss.transport != some t.proto then some badResp
   else if t.proto == .udp && !t.ports then some badResp
-  else if t.proto == .tcp && t.il == 2 then some badResp
+  else if t.proto == .tcp && decide (2 ≤ t.il) then some badResp   -- ids[0] + 1 ≠ ids[1]
   else if t.proto == .tcp && t.il == 1 && chanInUse ss.chans t.ilA then some badResp
   else if !isRec && t.mode == 2 then some badResp
   else if isRec && t.proto == .mcast then some { status := Sess.statusUnsupportedTransport }
